@@ -1,0 +1,74 @@
+//go:build verif
+
+// Contracts for contract-based deductive verification (checked by /verif/govc).
+// This file is comment-only and compiled only with the build tag "verif".
+// C02: the topology-aware chooser of candidate CPUs (cputree.go) only ever proposes free CPUs for adding and the
+// balloon's own CPUs for removing, and proposes enough of them.
+
+package balloons
+
+// Type-level contract of a stage of the resizer chain: candidates are subsets of what they may be chosen from; a
+// stage that is given enough CPUs (|free| >= delta resp. |current| >= -delta; the first stage,
+// resizeCpusOnlyIfNecessary, guarantees this to all later ones) and succeeds proposes enough of them.
+//@ pure enoughCpus(cur cpuset.CPUSet, free cpuset.CPUSet, delta int) bool = cur.Intersection(free).IsEmpty() &&
+//@    (delta > 0 ==> free.Size() >= delta) && (delta < 0 ==> cur.Size() >= -delta)
+//@ pure stageOK(cur cpuset.CPUSet, free cpuset.CPUSet, delta int, addFrom cpuset.CPUSet, removeFrom cpuset.CPUSet, err error) bool =
+//@    addFrom.IsSubsetOf(free) && (delta <= 0 ==> removeFrom.IsSubsetOf(cur)) &&
+//@    (enoughCpus(cur, free, delta) && err == nil && delta > 0 ==> addFrom.Size() >= delta) &&
+//@    (enoughCpus(cur, free, delta) && err == nil && delta < 0 ==> removeFrom.Size() >= -delta)
+//@ functype cpuResizerFunc
+//@   modifies maps map[string][]cpuset.CPUSet
+//@   ensures stageOK(arg1, arg2, arg3, result0, result1, result2)
+
+//@ func (*cpuTreeAllocator).nextCpuResizer
+//@   modifies maps map[string][]cpuset.CPUSet
+//@   ensures[C02] stageOK(currentCpus, freeCpus, delta, result0, result1, result2)
+
+//@ func (*cpuTreeAllocator).resizeCpusNow
+//@   modifies nothing
+//@   ensures[C02] stageOK(currentCpus, freeCpus, delta, result0, result1, result2)
+
+// the head of the chain: rejects impossible requests itself, hence its guarantee is unconditional
+// (requires: the package variable emptyCpuSet = cpuset.New() is never reassigned; the engine does not track
+// initial values of package variables)
+//@ func (*cpuTreeAllocator).resizeCpusOnlyIfNecessary
+//@   requires emptyCpuSet.IsEmpty()
+//@   modifies maps map[string][]cpuset.CPUSet
+//@   ensures[C02] resizeCandidatesOK(currentCpus, freeCpus, delta, result0, result1, result2)
+//@   ensures[C02] (delta > 0 && freeCpus.Size() < delta) || (delta < 0 && currentCpus.Size() < -delta) ==> result2 != nil
+
+// ($t17 / $t60 are the loop-carried values of the reassigned parameters freeCpus / currentCpus; the parameter names
+// themselves denote the values at entry)
+// one CPU at a time: the accumulated candidates stay inside the ORIGINAL free / current set, and n rounds give n CPUs
+//@ func (*cpuTreeAllocator).resizeCpusOneAtATime
+//@   requires ta != nil
+//@   modifies maps map[string][]cpuset.CPUSet
+//@   ensures[C02] stageOK(currentCpus, freeCpus, delta, result0, result1, result2)
+//@ loop 0 in (*cpuTreeAllocator).resizeCpusOneAtATime at "for n := 0; n < delta; n++"
+//@   modifies maps map[string][]cpuset.CPUSet
+//@   invariant 0 <= n && n <= delta && addFrom.Size() == n && addFrom.IsSubsetOf(freeCpus) && $t17.Equals(freeCpus.Difference(addFrom))
+//@ loop 1 in (*cpuTreeAllocator).resizeCpusOneAtATime at "for n := 0; n < -delta; n++"
+//@   modifies maps map[string][]cpuset.CPUSet
+//@   invariant 0 <= n && n <= -delta && removeFrom.Size() == n && removeFrom.IsSubsetOf(currentCpus) && $t60.Equals(currentCpus.Difference(removeFrom)) && addFrom.IsEmpty()
+
+// dynamic device hints: the per-CPU callback ta.options.deviceUpdateOnEveryCpu has an unnamed func type, the engine
+// havocs the heap at its call; the candidate sets are values, so the stage contract is still proved, but no frame
+// can be (hence no modifies clause here; the stage is only reached through the cpuResizerFunc functype contract).
+// ($t26/$t27: loop-carried currentCpus/freeCpus)
+//@ func (*cpuTreeAllocator).resizeCpusWithDynamicDeviceHints
+//@   requires ta != nil
+//@   ensures[C02] stageOK(currentCpus, freeCpus, delta, result0, result1, result2)
+//@ loop 0 in (*cpuTreeAllocator).resizeCpusWithDynamicDeviceHints at "for {"
+//@   invariant delta > 0 && addFrom.IsSubsetOf($t27) && $t27.IsSubsetOf(freeCpus) && addFrom.Size() >= 1
+//@   invariant addedCpus.IsSubsetOf(freeCpus) && addedCpus.Size() < delta
+//@   invariant enoughCpus(currentCpus, freeCpus, delta) ==> $t26.Intersection($t27).IsEmpty() && addedCpus.IsSubsetOf($t26) && $t27.Size() + addedCpus.Size() >= delta
+
+// The two remaining stages are ASSUMED to meet the stage contract (not verified: resizeCpusWithDevices sorts CPUs by
+// hint counts kept in a map (sort.Slice with a closure over a map), resizeCpusMaxLocalSet sorts the attributed tree
+// slice built by ToAttributedSlice).
+//@ assume-contract (*cpuTreeAllocator).resizeCpusWithDevices
+//@   modifies maps map[string][]cpuset.CPUSet
+//@   ensures stageOK(currentCpus, freeCpus, delta, result0, result1, result2)
+//@ assume-contract (*cpuTreeAllocator).resizeCpusMaxLocalSet
+//@   modifies maps map[string][]cpuset.CPUSet
+//@   ensures stageOK(currentCpus, freeCpus, delta, result0, result1, result2)
